@@ -92,6 +92,20 @@ CHECKS = {
         technique="Lean 4 soft-float model with bit-exact differential correspondence; rounding lemmas proved, property theorems partial",
         ref="5/C05",
     ),
+    "C01": dict(
+        text="Theorems (Lean 4): consecutive step windows share their boundary bit for bit; under strict monotonicity of the Julian-date map, an event "
+             "row is relevant in step k iff its civil interval meets (start+(k-1)dt, start+k dt] and its instance matches, hence an instantaneous event "
+             "is delivered in exactly one step (existence at ceil((tau-start)/dt), uniqueness), also on a boundary, and interval events in exactly the "
+             "overlapping steps, only for the named instance; by induction over steps of the agent's queue model (append on delivery, prune at "
+             "submission, fire inside the step) an impulse with a unique instant is applied exactly once whether its scenario time falls inside a "
+             "step, on a boundary or a hair beside one. Witness theorems record the unrepaired window gap, instance filter and double application, "
+             "and that coincident impulses lose one. Tied to the code by bit-exact comparison of the windows the real stepForward computes, delivery "
+             "runs against a real in-memory database, and an in-process pipeline of the real query/handleEvent/prune/TwoBody.propagate code.",
+        note=BASE_TB + "scipy's event location is modelled by its documented rule and exercised on every impulse case; strict monotonicity of "
+             "datetimeToJulianDate is a hypothesis here (C05) and checked bit-exactly on every generated window; events at/before the start are outside the property.",
+        technique="Lean 4 proof (tiling over a monotone map, induction over steps) + bit-exact window correspondence + differential delivery/impulse pipeline on the real code",
+        ref="5/C01",
+    ),
 }
 
 PLANNED = {}
